@@ -11,6 +11,7 @@ import BlocV.Model.Mod.CsvPlugin
 import BlocV.Proofs.Lemmas.Utf8
 import BlocV.Proofs.Lemmas.Utf8Ill
 import BlocV.Proofs.Lemmas.Utf8Ops
+import BlocV.Proofs.Lemmas.Utf8Case
 
 namespace BlocV.C18
 open BlocV.Mod.Csv
@@ -156,15 +157,16 @@ example : deserializeNext ⟨0x2c, 0x22⟩ {} [] [0x61] = .done false [[0x61]] {
 section csvplugin
 open BlocV.Mod.CsvPlugin
 
-/-- **csv_plugin_args_total** (the `csv_args_total` of the plugin level). For EVERY parser object (any separator /
-encapsulator, any error state), EVERY state of the table variable (null table, empty table, null elements) and EVERY
-call of the method table — `serialize(T)`, `deserialize(line, T)`, `deserialize_next(line, T)` with any line (null, empty,
-ill-formed), `in_error()`, `error_pos()` — the call answers a value or the BLOC error "Invalid arguments.", and reaches a
-C++-level fault EXACTLY in the recorded region `C18.csv_next_null_last_element`: `deserialize_next` with a non-null line
-on a table whose LAST element is a null string. In particular `out.back()` on an empty vector is never reached. -/
+/-- **csv_plugin_args_total** (the `csv_args_total` of the plugin level), UNCONDITIONAL since /repo ad063b9. For EVERY
+parser object (any separator / encapsulator, any error state), EVERY state of the table variable (null table, empty table,
+null elements anywhere, the last one included) and EVERY call of the method table — `serialize(T)`, `deserialize(line, T)`,
+`deserialize_next(line, T)` with any line (null, empty, ill-formed), `in_error()`, `error_pos()` — the call answers a value or
+the BLOC error "Invalid arguments." and never reaches a C++-level fault (no null dereference, no `out.back()` on an empty
+vector); and the BLOC error is raised EXACTLY for a null line, or a null table handed to `deserialize_next`. -/
 theorem csv_plugin_args_total (w : World) (op : Op) :
-    (Mod.CsvPlugin.step w op).2.isHazard = true ↔
-      ∃ line t, op = .deserializeNext (some line) ∧ w.tbl = some t ∧ t.getLast? = some none := by
+    (Mod.CsvPlugin.step w op).2.isHazard = false
+    ∧ ((Mod.CsvPlugin.step w op).2 = .err ↔
+        op = .deserialize none ∨ op = .deserializeNext none ∨ (∃ line, op = .deserializeNext (some line) ∧ w.tbl = none)) := by
   cases op with
   | serialize => cases h : w.tbl <;> simp [Mod.CsvPlugin.step, h, Res.isHazard]
   | inError => simp [Mod.CsvPlugin.step, Res.isHazard]
@@ -191,48 +193,59 @@ theorem csv_plugin_args_total (w : World) (op : Op) :
           | done n o p => simp [Mod.CsvPlugin.step, ht, hl, h, Res.isHazard]
           | hazardEmptyBack => exact absurd h this
         | some e =>
-          cases e with
-          | none => simp [Mod.CsvPlugin.step, ht, hl, Res.isHazard]
-          | some last =>
-            have := (csv_args_total w.cfg w.ps true [last] l).2.2
-            cases h : deserializeNext w.cfg w.ps [last] l with
-            | done n o p => simp [Mod.CsvPlugin.step, ht, hl, h, Res.isHazard]
-            | hazardEmptyBack => exact absurd h this
+          have := (csv_args_total w.cfg w.ps true [fieldOf e] l).2.2
+          cases h : deserializeNext w.cfg w.ps [fieldOf e] l with
+          | done n o p => simp [Mod.CsvPlugin.step, ht, hl, h, Res.isHazard]
+          | hazardEmptyBack => exact absurd h this
 
-/-- the region is inhabited (`T = [a, null]`, line `x`) and null / empty arguments outside it are answered: null line →
-BLOC error, null table → BLOC error, `serialize(null table)` → null string, a null element serializes as the empty field -/
-example : (Mod.CsvPlugin.step { cfg := ⟨0x2c, 0x22⟩, tbl := some [some [0x61], none] } (.deserializeNext (some [0x78]))).2 = .hazardNullElem
-    ∧ (Mod.CsvPlugin.step { cfg := ⟨0x2c, 0x22⟩, tbl := some [some [0x61], none] } (.deserializeNext none)).2 = .err
+/-- null / empty arguments are answered: null line → BLOC error, null table → BLOC error, `serialize(null table)` → null
+string, a null element serializes as the empty field; `deserialize_next` on the empty table starts a record -/
+example : (Mod.CsvPlugin.step { cfg := ⟨0x2c, 0x22⟩, tbl := some [some [0x61], none] } (.deserializeNext none)).2 = .err
     ∧ (Mod.CsvPlugin.step { cfg := ⟨0x2c, 0x22⟩, tbl := none } (.deserializeNext (some [0x78]))).2 = .err
     ∧ (Mod.CsvPlugin.step { cfg := ⟨0x2c, 0x22⟩, tbl := none } .serialize).2 = .str none
     ∧ (Mod.CsvPlugin.step { cfg := ⟨0x2c, 0x22⟩, tbl := some [some [0x61], none] } .serialize).2 = .str (some [0x61, 0x2c])
     ∧ (Mod.CsvPlugin.step { cfg := ⟨0x2c, 0x22⟩, tbl := some [] } (.deserializeNext (some [0x78]))) =
         ({ cfg := ⟨0x2c, 0x22⟩, tbl := some [some [0x78]] }, .bool false) := by decide +kernel
 
-/-- **csv_plugin_next_core.** The plugin hands only the LAST field of the table to the parser (`data = [T.last]`). For a
-table without null elements `pre ++ [last]` and a non-empty line this IS the parser's `deserialize_next` on the whole table —
-same "needs more" flag, same parser state, same fields — except that on a parse error, where the parser core clears its whole
-vector, the plugin's table keeps the earlier fields `pre` (only the field being continued is lost). -/
-theorem csv_plugin_next_core (w : World) (pre : Row) (last : Field) (line : List UInt8) (hl : line ≠ [])
-    (ht : w.tbl = some (pre.map some ++ [some last])) :
-    ∃ next out ps', deserializeNext w.cfg w.ps [last] line = .done next out ps'
-      ∧ Mod.CsvPlugin.step w (.deserializeNext (some line)) = ({ w with ps := ps', tbl := some ((pre ++ out).map some) }, .bool next)
-      ∧ deserializeNext w.cfg w.ps (pre ++ [last]) line = .done next (if out = [] then [] else pre ++ out) ps' := by
+/-- **csv_next_null_last_element_witness** — regression witness of the repaired finding `C18.csv_next_null_last_element`
+(/repo ad063b9). `C = csv(); T = [a, null]; C.deserialize_next("x,y", T)` was a null-pointer dereference; now the null
+element is continued as an empty ENCAPSULATED field: the call answers TRUE ("needs more": the encapsulation opened by the
+continuation is still open, so the separator is data) and `T = [a, "x,y"]`. With the line `x",y` the encapsulator closes the
+field: FALSE and `T = [a, "x", "y"]`; with the empty line (end of stream) the null element becomes the empty string. -/
+theorem csv_next_null_last_element_witness :
+    Mod.CsvPlugin.step { cfg := ⟨0x2c, 0x22⟩, tbl := some [some [0x61], none] } (.deserializeNext (some [0x78, 0x2c, 0x79]))
+      = ({ cfg := ⟨0x2c, 0x22⟩, tbl := some [some [0x61], some [0x78, 0x2c, 0x79]] }, .bool true)
+    ∧ Mod.CsvPlugin.step { cfg := ⟨0x2c, 0x22⟩, tbl := some [some [0x61], none] } (.deserializeNext (some [0x78, 0x22, 0x2c, 0x79]))
+      = ({ cfg := ⟨0x2c, 0x22⟩, tbl := some [some [0x61], some [0x78], some [0x79]] }, .bool false)
+    ∧ Mod.CsvPlugin.step { cfg := ⟨0x2c, 0x22⟩, tbl := some [none] } (.deserializeNext (some []))
+      = ({ cfg := ⟨0x2c, 0x22⟩, tbl := some [some []] }, .bool true) := by decide +kernel
+
+/-- **csv_plugin_next_core.** The plugin hands only the LAST element of the table to the parser (`data = [T.last]`, a null
+element as the empty string) and leaves the others where they are. For EVERY table `pre ++ [e]` — null elements anywhere,
+`e` included — and a non-empty line this IS the parser's `deserialize_next` on the plugin's copy `fields T` of the whole
+table: same "needs more" flag, same parser state, same fields appended — except that (a) on a parse error, where the parser
+core clears its whole vector, the plugin's table keeps the earlier elements `pre` (only the element being continued is lost),
+and (b) the earlier elements are not rewritten: a null element of `pre` stays null (the core would see it as ""). -/
+theorem csv_plugin_next_core (w : World) (pre : BTable) (e : BStr) (line : List UInt8) (hl : line ≠ [])
+    (ht : w.tbl = some (pre ++ [e])) :
+    ∃ next out ps', deserializeNext w.cfg w.ps [fieldOf e] line = .done next out ps'
+      ∧ Mod.CsvPlugin.step w (.deserializeNext (some line)) = ({ w with ps := ps', tbl := some (pre ++ out.map some) }, .bool next)
+      ∧ deserializeNext w.cfg w.ps (fields (pre ++ [e])) line = .done next (if out = [] then [] else fields pre ++ out) ps' := by
   cases line with
   | nil => exact absurd rfl hl
   | cons x xs =>
-    have hS := scan_addPre w.cfg pre (x :: xs).length (x :: xs) (Nat.le_refl _)
-      { out := [], value := last, first := true, encap := true }
+    have hS := scan_addPre w.cfg (fields pre) (x :: xs).length (x :: xs) (Nat.le_refl _)
+      { out := [], value := fieldOf e, first := true, encap := true }
     simp only [addPre, List.append_nil] at hS
-    have e1 : deserializeNext w.cfg w.ps [last] (x :: xs)
-        = finish w.ps (scan w.cfg (x :: xs) { out := [], value := last, first := true, encap := true }) := by
+    have e1 : deserializeNext w.cfg w.ps [fieldOf e] (x :: xs)
+        = finish w.ps (scan w.cfg (x :: xs) { out := [], value := fieldOf e, first := true, encap := true }) := by
       simp [deserializeNext, deserializeChunk]
-    have e2 : deserializeNext w.cfg w.ps (pre ++ [last]) (x :: xs)
-        = finish w.ps (scan w.cfg (x :: xs) { out := pre, value := last, first := true, encap := true }) := by
-      simp [deserializeNext, deserializeChunk]
+    have e2 : deserializeNext w.cfg w.ps (fields (pre ++ [e])) (x :: xs)
+        = finish w.ps (scan w.cfg (x :: xs) { out := fields pre, value := fieldOf e, first := true, encap := true }) := by
+      simp [deserializeNext, deserializeChunk, fields]
     rw [e1, e2, hS]
-    generalize scan w.cfg (x :: xs) { out := [], value := last, first := true, encap := true } = S at e1 ⊢
-    have hlast : (pre.map some ++ [some last]).getLast? = some (some last) := by simp
+    generalize scan w.cfg (x :: xs) { out := [], value := fieldOf e, first := true, encap := true } = S at e1 ⊢
+    have hlast : (pre ++ [e]).getLast? = some e := by simp
     cases he : S.error with
     | true =>
       refine ⟨false, [], { error := true, errorPos := S.pos }, by simp [finish, he], ?_, by simp [finish, he]⟩
@@ -241,16 +254,38 @@ theorem csv_plugin_next_core (w : World) (pre : Row) (last : Field) (line : List
       refine ⟨S.encap, S.out ++ [S.value], w.ps, by simp [finish, he], ?_, by simp [finish, he]⟩
       simp [Mod.CsvPlugin.step, ht, hlast, e1, finish, he]
 
-/-- hypotheses satisfiable: `T = ["a", "\"b"]`, line `c",d` completes the quoted field: `["a", "b\nc"…]` -/
+/-- hypotheses satisfiable: `T = ["a", "b"]`, line `c",d` completes the continued field: `["a", "bc", "d"]`; and with a null
+element in front and a null last element: `T = [null, null]`, line `c",d` → `[null, "c", "d"]` -/
 example : ([0x63, 0x22, 0x2c, 0x64] : List UInt8) ≠ []
-    ∧ (Mod.CsvPlugin.step { cfg := ⟨0x2c, 0x22⟩, tbl := some ([[0x61]].map some ++ [some [0x62]]) }
-        (.deserializeNext (some [0x63, 0x22, 0x2c, 0x64]))).1.tbl = some [some [0x61], some [0x62, 0x63], some [0x64]] := by
+    ∧ (Mod.CsvPlugin.step { cfg := ⟨0x2c, 0x22⟩, tbl := some ([some [0x61]] ++ [some [0x62]]) }
+        (.deserializeNext (some [0x63, 0x22, 0x2c, 0x64]))).1.tbl = some [some [0x61], some [0x62, 0x63], some [0x64]]
+    ∧ (Mod.CsvPlugin.step { cfg := ⟨0x2c, 0x22⟩, tbl := some ([none] ++ [none]) }
+        (.deserializeNext (some [0x63, 0x22, 0x2c, 0x64]))).1.tbl = some [none, some [0x63], some [0x64]] := by
+  decide +kernel
+
+/-- **csv_plugin_next_null_last.** What a null last element means for the continuation: exactly what the EMPTY STRING
+means. For every parser object, every table `pre ++ [null]` and every non-null line (empty, any bytes), `deserialize_next`
+answers the same value and leaves the same parser state and the same table as on `pre ++ [""]`. (So, by
+`csv_plugin_next_core`, it is the core's `deserialize_next` on `fields T`, whose last field is "".) -/
+theorem csv_plugin_next_null_last (w : World) (pre : BTable) (line : List UInt8) :
+    Mod.CsvPlugin.step { w with tbl := some (pre ++ [none]) } (.deserializeNext (some line))
+      = Mod.CsvPlugin.step { w with tbl := some (pre ++ [some []]) } (.deserializeNext (some line)) := by
+  have h1 : (pre ++ [(none : BStr)]).getLast? = some none := by simp
+  have h2 : (pre ++ [(some [] : BStr)]).getLast? = some (some []) := by simp
+  have := (csv_args_total w.cfg w.ps true [[]] line).2.2
+  cases h : deserializeNext w.cfg w.ps [[]] line with
+  | done n o p => simp [Mod.CsvPlugin.step, h1, h2, fieldOf, h]
+  | hazardEmptyBack => exact absurd h this
+
+example : Mod.CsvPlugin.step { cfg := ⟨0x2c, 0x22⟩, ps := { error := true, errorPos := 3 }, tbl := some ([some [0x61]] ++ [none]) }
+      (.deserializeNext (some [0x22, 0x22, 0x78, 0x22, 0x20, 0x2c]))
+    = ({ cfg := ⟨0x2c, 0x22⟩, ps := { error := true, errorPos := 3 }, tbl := some [some [0x61], some [0x22, 0x78], some []] }, .bool false) := by
   decide +kernel
 
 theorem fields_map_some (r : Row) : fields (r.map some) = r := by
   induction r with
   | nil => rfl
-  | cons x xs ih => simp only [fields, List.map_cons, List.map_map] at ih ⊢; rw [ih]
+  | cons x xs ih => simp only [fields, List.map_cons, List.map_map] at ih ⊢; rw [ih]; rfl
 
 /-- `deserialize_next` as a client of the PLUGIN sees it: the table variable holds `out`; answer = the flag and the
     fields of the table afterwards, or `none` when the call raised an error / set the error flag -/
@@ -274,11 +309,13 @@ theorem pluginNext_eq (cfg : Cfg) (out : Row) (line : List UInt8) : pluginNext c
       have hl : (List.map some (pre ++ [last])).getLast? = some (some last) := by simp
       simp [Mod.CsvPlugin.step, hl, deserializeNext, deserializeChunk, Outcome.toCall, List.dropLast_concat]
       have := fields_map_some (pre ++ [last])
-      simpa using this
+      simpa [fieldOf] using this
     | cons x xs =>
-      obtain ⟨next, o, ps', h1, h2, h3⟩ := csv_plugin_next_core { cfg := cfg, tbl := some ((pre ++ [last]).map some) } pre last
-        (x :: xs) (by simp) (by simp)
-      simp only at h1 h2 h3
+      obtain ⟨next, o, ps', h1, h2, h3⟩ := csv_plugin_next_core { cfg := cfg, tbl := some ((pre ++ [last]).map some) } (pre.map some)
+        (some last) (x :: xs) (by simp) (by simp)
+      have hf : fields (pre.map some ++ [some last]) = pre ++ [last] := by
+        have := fields_map_some (pre ++ [last]); simpa using this
+      simp only [hf, fields_map_some, fieldOf] at h1 h2 h3
       rw [h2, h3]
       simp only [Outcome.toCall]
       by_cases he : ps'.error = true
@@ -590,13 +627,12 @@ append(integer), append(string), concat(utf8), string, at, remove, insert(pos, i
 substr(pos, n) — everything but the five table-driven transformations), on every object state that satisfies the
 representation invariant `Inv` (`rawSize` = the bytes `ToStdString` writes; it holds for every constructed object:
 `ofBytes_inv`, `inv_empty`) and with EVERY argument (null, negative, INT64 extremes, the receiver itself or another
-object as utf8 argument): the call answers a value or a BLOC error, keeps the invariant (so `string()` never
-overruns its buffer and `rawSize -= bc` never wraps), and reaches a C++-level failure EXACTLY in the recorded region
-`C18.utf8_reserve_unchecked`: `reserve(n)` with `(size_t) n` above `vector::max_size()` (std::length_error) or above
-what the allocator serves (std::bad_alloc). `hb` says the text fits a `size_t` (an address-space fact). -/
+object as utf8 argument), for EVERY allocator limit `mem`: the call answers a value or a BLOC error — NEVER a C++-level
+failure (unconditional since /repo 2b1dab4: `reserve` turns a negative count, `std::length_error` and `std::bad_alloc`
+into EXC_RT_OUT_OF_RANGE) — and keeps the invariant (so `string()` never overruns its buffer and `rawSize -= bc` never
+wraps). `hb` says the text fits a `size_t` (an address-space fact). -/
 theorem utf8_methods_total (mem : Nat) (u v : UStr) (op : POp) (hu : Inv u) (hb : u.rawSize < 2 ^ 64) :
-    ((pstep mem u v op).2.isHazard = true ↔ ∃ i, op = .reserve (some i) ∧ (MAX_SIZE < toSizeT i ∨ mem < toSizeT i))
-    ∧ Inv (pstep mem u v op).1 := by
+    (pstep mem u v op).2.isHazard = false ∧ Inv (pstep mem u v op).1 := by
   cases op with
   | empty => simp [pstep, PVal.isHazard, hu]
   | count => simp [pstep, PVal.isHazard, hu]
@@ -607,11 +643,11 @@ theorem utf8_methods_total (mem : Nat) (u v : UStr) (op : POp) (hu : Inv u) (hb 
     | some i =>
       simp only [pstep, pluginReserve]
       refine ⟨?_, hu⟩
-      by_cases h1 : MAX_SIZE < toSizeT i
-      · simp [h1, PVal.isHazard]
-      · by_cases h2 : mem < toSizeT i
-        · simp [h1, h2, PVal.isHazard]
-        · simp [h1, h2, PVal.isHazard]
+      split
+      · rfl
+      · split
+        · rfl
+        · split <;> rfl
   | clear => simp [pstep, PVal.isHazard, clear_inv]
   | append c => cases c <;> simp [pstep, PVal.isHazard, hu, appendCp_inv]
   | appendL t => cases t <;> simp [pstep, PVal.isHazard, hu, appendBytes_inv]
@@ -634,6 +670,46 @@ theorem utf8_methods_total (mem : Nat) (u v : UStr) (op : POp) (hu : Inv u) (hb 
   | substr1 a0 => cases a0 <;> simp [pstep, pluginSubstr1, ofPRes, PVal.isHazard, hu]
   | substr2 a0 a1 => cases a0 <;> cases a1 <;> simp [pstep, pluginSubstr2, ofPRes, PVal.isHazard, hu]
 
+/-- **utf8_reserve_exact.** `reserve(n)` in closed form, for every object, every argument and every allocator limit: the
+object is left as it was; null → "Invalid arguments."; TRUE exactly when `0 ≤ n ≤ vector::max_size()` (2^61 - 1 elements)
+and the allocator serves `n` elements; in every other case — negative, above `max_size()`, above memory — the ONE error
+class EXC_RT_OUT_OF_RANGE. -/
+theorem utf8_reserve_exact (mem : Nat) (u v : UStr) (n : Option Int64) :
+    (pstep mem u v (.reserve n)).1 = u
+    ∧ (pstep mem u v (.reserve n)).2 =
+        match n with
+        | none => .invalidArgs
+        | some i => if 0 ≤ i.toInt ∧ i.toInt.toNat ≤ MAX_SIZE ∧ i.toInt.toNat ≤ mem then .bool true else .outOfRange := by
+  refine ⟨rfl, ?_⟩
+  cases n with
+  | none => rfl
+  | some i =>
+    simp only [pstep, pluginReserve]
+    by_cases h0 : i.toInt < 0
+    · rw [if_pos h0, if_neg (by omega)]
+    · rw [if_neg h0, toSizeT_of_nonneg i (by omega)]
+      by_cases h1 : MAX_SIZE < i.toInt.toNat
+      · rw [if_pos h1, if_neg (by omega)]
+      · rw [if_neg h1]
+        by_cases h2 : mem < i.toInt.toNat
+        · rw [if_pos h2, if_neg (by omega)]
+        · rw [if_neg h2, if_pos ⟨by omega, by omega, by omega⟩]
+
+/-- **utf8_reserve_unchecked_witness** — regression witnesses of the repaired finding `C18.utf8_reserve_unchecked`
+(/repo 2b1dab4), with an allocator serving 2^32 elements: the boundary requests -1, -2, INT64_MIN (negative), 2^61, 2^62,
+INT64_MAX (above `max_size()`, formerly `std::length_error`), 2^40, 2^50 (above memory, formerly `std::bad_alloc`) all answer
+EXC_RT_OUT_OF_RANGE and leave the object alone; 2^61 - 1 = `max_size()` itself is refused only for want of memory (it is
+TRUE with an allocator that serves it); 0, 10 and 10^6 answer TRUE; null answers "Invalid arguments." -/
+theorem utf8_reserve_unchecked_witness :
+    (([-1, -2, -9223372036854775808, 2305843009213693952, 4611686018427387904, 9223372036854775807, 1099511627776,
+        1125899906842624, 2305843009213693951] : List Int64).all
+      fun n => pstep (2 ^ 32) (ofBytes [0x61, 0x62]) {} (.reserve (some n)) == (ofBytes [0x61, 0x62], .outOfRange)) = true
+    ∧ (([0, 10, 1000000] : List Int64).all
+      fun n => pstep (2 ^ 32) (ofBytes [0x61, 0x62]) {} (.reserve (some n)) == (ofBytes [0x61, 0x62], .bool true)) = true
+    ∧ (pstep (2 ^ 61) (ofBytes [0x61, 0x62]) {} (.reserve (some 2305843009213693951))).2 = .bool true
+    ∧ (pstep (2 ^ 62) (ofBytes [0x61, 0x62]) {} (.reserve (some 2305843009213693952))).2 = .outOfRange
+    ∧ (pstep (2 ^ 32) (ofBytes [0x61, 0x62]) {} (.reserve none)).2 = .invalidArgs := by decide +kernel
+
 /-- "the text fits the address space" along a history: `rawSize < 2^64` in every state the history passes through -/
 def Fits (mem : Nat) (v : UStr) : UStr → List POp → Prop
   | u, [] => u.rawSize < 2 ^ 64
@@ -643,64 +719,152 @@ instance Fits.dec (mem : Nat) (v : UStr) : (u : UStr) → (ops : List POp) → D
   | u, [] => inferInstanceAs (Decidable (u.rawSize < 2 ^ 64))
   | u, op :: ops => @instDecidableAnd _ _ _ (Fits.dec mem v (pstep mem u v op).1 ops)
 
-/-- **utf8_history_total.** Whole histories: starting from any constructed object, ANY list of method calls with ANY
-arguments (the run stops at the first C++-level failure, as the interpreter does not survive one) keeps the invariant to
-the end, and the only failures that can occur anywhere in it are the two of `reserve` (`std::length_error`,
-`std::bad_alloc`): no out-of-bounds access and no buffer overrun in any reachable state. -/
+/-- **utf8_history_total.** Whole histories: starting from any object that satisfies the invariant (every constructed
+object does), ANY list of method calls with ANY arguments, for ANY allocator limit: every call of the history is answered
+(one answer per call: the run is never cut short), no answer is a C++-level failure — no out-of-bounds access, no buffer
+overrun, no foreign exception in any reachable state — and the invariant holds at the end (hence, by induction, in every
+state on the way). -/
 theorem utf8_history_total (mem : Nat) (v : UStr) : ∀ (ops : List POp) (u : UStr), Inv u → Fits mem v u ops →
-    (∀ r ∈ (prun mem v u ops).2, r.isHazard = true → r = .foreignLength ∨ r = .foreignAlloc)
+    (∀ r ∈ (prun mem v u ops).2, r.isHazard = false)
+    ∧ (prun mem v u ops).2.length = ops.length
     ∧ Inv (prun mem v u ops).1 := by
   intro ops
   induction ops with
-  | nil => intro u hu _; exact ⟨by simp [prun], by simpa [prun] using hu⟩
+  | nil => intro u hu _; exact ⟨by simp [prun], by simp [prun], by simpa [prun] using hu⟩
   | cons op ops ih =>
     intro u hu hf
     obtain ⟨hb, hf'⟩ := hf
     have hm := utf8_methods_total mem u v op hu hb
     simp only [prun]
-    by_cases hz : (pstep mem u v op).2.isHazard = true
-    · rw [if_pos hz]
-      refine ⟨?_, hm.2⟩
-      intro r hr _
-      simp only [List.mem_singleton] at hr
-      subst hr
-      obtain ⟨i, rfl, _⟩ := hm.1.mp hz
-      simp only [pstep, pluginReserve] at hz ⊢
-      split
-      · exact Or.inl rfl
-      · split
-        · exact Or.inr rfl
-        · rename_i h1 h2; simp [h1, h2, PVal.isHazard] at hz
-    · rw [if_neg hz]
-      have := ih (pstep mem u v op).1 hm.2 hf'
-      refine ⟨?_, this.2⟩
-      intro r hr hh
-      simp only [List.mem_cons] at hr
-      rcases hr with rfl | hr
-      · exact absurd hh hz
-      · exact this.1 r hr hh
+    rw [if_neg (by simp [hm.1])]
+    have := ih (pstep mem u v op).1 hm.2 hf'
+    refine ⟨?_, by simp [this.2.1], this.2.2⟩
+    intro r hr
+    simp only [List.mem_cons] at hr
+    rcases hr with rfl | hr
+    · exact hm.1
+    · exact this.1 r hr
 
 example : Inv (ofBytes [0x61, 0xC3, 0xA9]) ∧ Fits (2 ^ 32) {} (ofBytes [0x61, 0xC3, 0xA9])
       [.insertC (some 0) (some .self), .remove (some 1) (some (-1)), .reserve (some (-1)), .string]
     ∧ (prun (2 ^ 32) {} (ofBytes [0x61, 0xC3, 0xA9])
         [.insertC (some 0) (some .self), .remove (some 1) (some (-1)), .reserve (some (-1)), .string]).2
-      = [.int 2, .bool true, .foreignLength] := by
+      = [.int 2, .bool true, .outOfRange, .str [0x61]] := by
   refine ⟨ofBytes_inv _, by decide +kernel, by decide +kernel⟩
 
-/-- the hypotheses hold for every constructed object (any bytes), the region is inhabited (`reserve(-1)`,
-`reserve(2^61)`: std::length_error; `reserve(2^40)` with an allocator serving 2^32 elements: std::bad_alloc), and null /
-negative / huge arguments of the other methods stay outside it; `U.insert(0, U)` doubles the text. -/
+/-- the hypotheses hold for every constructed object (any bytes); null / negative / huge arguments are answered;
+`U.insert(0, U)` doubles the text. -/
 example : Inv (ofBytes [0x61, 0xC3, 0xA9, 0xFF]) ∧ (ofBytes [0x61, 0xC3, 0xA9, 0xFF]).rawSize < 2 ^ 64
-    ∧ (pstep (2 ^ 32) (ofBytes [0x61]) {} (.reserve (some (-1)))).2 = .foreignLength
-    ∧ (pstep (2 ^ 32) (ofBytes [0x61]) {} (.reserve (some 2305843009213693952))).2 = .foreignLength
-    ∧ (pstep (2 ^ 32) (ofBytes [0x61]) {} (.reserve (some 1099511627776))).2 = .foreignAlloc
     ∧ (pstep (2 ^ 32) (ofBytes [0x61]) {} (.reserve (some 1000000))).2 = .bool true
     ∧ (pstep (2 ^ 32) (ofBytes [0x61]) {} (.reserve none)).2 = .invalidArgs
     ∧ (pstep (2 ^ 32) (ofBytes [0x61]) {} (.remove (some (-1)) (some (-9223372036854775808)))).2 = .bool false
     ∧ (pstep (2 ^ 32) (ofBytes [0x61, 0xC3, 0xA9]) {} (.insertC (some 0) (some .self)))
         = ({ parser := .p0, store := [0x61, 0xC3A9, 0x61, 0xC3A9], rawSize := 6 }, .int 2) := by
-  refine ⟨ofBytes_inv _, by decide +kernel, by decide +kernel, by decide +kernel, by decide +kernel, by decide +kernel,
-    by decide +kernel, by decide +kernel, by decide +kernel⟩
+  refine ⟨ofBytes_inv _, by decide +kernel, by decide +kernel, by decide +kernel, by decide +kernel, by decide +kernel⟩
+
+/-! ### the case transformations (`toupper`, `tolower`) and the transformation that stays installed -/
+
+/-- **utf8_case_agrees.** `toupper()` / `tolower()` on valid text, for EVERY character table `cm`: the object built from
+the RFC 3629 encoding of any non-zero scalar values holds, after `Transform(f)`, exactly the table images of its characters
+in order (`applyF`: the entry's `upper` / `lower` field where a page exists, the character itself where none does), minus
+those the table maps to "no character" (0); the parser is at rest, `rawsize` is the number of bytes of the new text, and
+the transformation `f` is what the object's parser has installed from now on. So `count()` never grows, and it is unchanged
+when the table maps none of the characters to 0. -/
+theorem utf8_case_agrees (cm : CharMap) (f : Func) (cps : List Nat) (h : ValidCps cps) (g : Func) :
+    transformT cm f { u := ofBytes (encodeAll cps), func := g }
+      = { u := { parser := .p0, store := outF cm f (cps.map pack), rawSize := bytesOf (outF cm f (cps.map pack)) }, func := f }
+    ∧ (transformT cm f { u := ofBytes (encodeAll cps), func := g }).u.store.length ≤ cps.length
+    ∧ ((∀ c ∈ cps, applyF cm f (pack c) ≠ 0) →
+        (transformT cm f { u := ofBytes (encodeAll cps), func := g }).u.store = cps.map fun c => applyF cm f (pack c)) := by
+  have hs : (ofBytes (encodeAll cps)).store = cps.map pack := by rw [decode_valid_agrees_partial cps h]
+  have key : transformT cm f { u := ofBytes (encodeAll cps), func := g }
+      = { u := { parser := .p0, store := outF cm f (cps.map pack), rawSize := bytesOf (outF cm f (cps.map pack)) }, func := f } := by
+    have e := transformT_eq cm f { u := ofBytes (encodeAll cps), func := g }
+    have eu : (transformT cm f { u := ofBytes (encodeAll cps), func := g }).u
+        = { parser := .p0, store := outF cm f (cps.map pack), rawSize := bytesOf (outF cm f (cps.map pack)) } := by
+      rw [e.1]
+      simp only [hs]
+      rw [reread_bytes cps h, foldl_writeByteF]
+      obtain ⟨h1, h2⟩ := emit_encodeAll cps h
+      simp only [h1, h2]
+      simp
+    cases ht : transformT cm f { u := ofBytes (encodeAll cps), func := g } with
+    | mk u fn =>
+      rw [ht] at eu e
+      simp only at eu e
+      rw [eu, e.2]
+  refine ⟨key, ?_, ?_⟩
+  · rw [key]
+    have := outF_length_le cm f (cps.map pack)
+    simpa using this
+  · intro hz
+    rw [key]
+    simp only [outF, List.map_map]
+    rw [List.filter_eq_self.mpr]
+    · rfl
+    · intro x hx
+      simp only [List.mem_map, Function.comp] at hx
+      obtain ⟨c, hc, rfl⟩ := hx
+      simpa using hz c hc
+
+/-- a table with the entries of `a`, `é` (C3 A9 ↦ upper C3 89) and an entry that maps `x` to "no character" -/
+def cmEx : CharMap := fun u =>
+  if u = 0x61 then some (0x41, 0x61) else if u = 0x41 then some (0x41, 0x61) else if u = 0xC3A9 then some (0xC389, 0xC3A9)
+  else if u = 0x78 then some (0, 0x78) else if u < 0x80 then some (u, u) else none
+
+example : ValidCps [0x61, 0xE9, 0x78, 0x20AC]
+    ∧ (transformT cmEx .upper { u := ofBytes (encodeAll [0x61, 0xE9, 0x78, 0x20AC]) }).u
+        = { parser := .p0, store := [0x41, 0xC389, 0xE282AC], rawSize := 6 } := by
+  refine ⟨?_, by decide +kernel⟩
+  intro c hc
+  simp at hc
+  rcases hc with rfl | rfl | rfl | rfl <;> decide
+
+/-- **utf8_case_total.** For EVERY table, every object state and every call of `toupper` / `tolower` / `append(string)` /
+`append(integer)` / `clear` with any argument: the representation invariant is kept — `rawsize` is the number of bytes
+`string()` writes, so `string()` never overruns its buffer after a transformation either (ill-formed stored values, NUL
+bytes inside `_u_string`, table images of any size included). -/
+theorem utf8_case_total (cm : CharMap) (t : TStr) (op : TOp) (hi : Inv t.u) : Inv (tstep cm t op).u := by
+  cases op with
+  | toupper => exact transformT_inv cm .upper t
+  | tolower => exact transformT_inv cm .lower t
+  | appendL s =>
+    cases s with
+    | none => exact hi
+    | some s => exact foldl_writeByteF_inv cm t.func s t.u hi
+  | append c =>
+    cases c with
+    | none => exact hi
+    | some c => exact appendCp_inv _ _ hi
+  | clear => exact inv_empty
+
+example : Inv ({ u := ofBytes [0x61, 0xFF, 0xC3], func := .lower } : TStr).u := ofBytes_inv _
+
+/-- **utf8_append_after_transform.** What `append(string)` stores on an object whose parser is at rest: for EVERY byte
+string (well-formed or not) the characters the independent look-ahead decoder finds in it (`decode_illformed`), each
+passed through the transformation INSTALLED in the object — which is `TransformNop` for a fresh object and, since
+`Transform(func)` never restores `parser.func`, the transformation of the last `toupper()` / `tolower()` otherwise
+(`clear()` does not reset it): finding `C18.utf8_transform_sticky`. -/
+theorem utf8_append_after_transform (cm : CharMap) (t : TStr) (text : List UInt8) (hp : t.u.parser = .p0) :
+    (appendBytesT cm t text).u.store
+      = t.u.store ++ outF cm t.func (((BlocV.Spec.Utf8.lenient text).filter (· ≠ 0)).map pack)
+    ∧ (appendBytesT cm t text).func = t.func
+    ∧ (clearT (transformT cm .upper t)).func = .upper ∧ (clearT (transformT cm .lower t)).func = .lower := by
+  refine ⟨?_, rfl, rfl, rfl⟩
+  simp only [appendBytesT]
+  rw [foldl_writeByteF, hp, emit_bytes]
+  simp [lenientPacked, BlocV.Spec.Utf8.lenient]
+
+/-- **utf8_transform_sticky_witness** (finding `C18.utf8_transform_sticky`, by evaluation): `U = utf8("ab"); U.toupper()`
+holds `AB`; `U.append("cd")` then holds `ABCD` — the appended text is upper-cased too — and after `U.clear()`,
+`U.append("a")` holds `A`; `U.append(0x61)` (integer) is not transformed. -/
+theorem utf8_transform_sticky_witness :
+    let t1 := tstep cmEx { u := ofBytes [0x61, 0x62] } .toupper
+    let t2 := tstep cmEx t1 (.appendL (some [0x61, 0x64]))
+    let t3 := tstep cmEx (tstep cmEx t2 .clear) (.appendL (some [0x61]))
+    let t4 := tstep cmEx t3 (.append (some 0x61))
+    t1.u.store = [0x41, 0x62] ∧ t2.u.store = [0x41, 0x62, 0x41, 0x64] ∧ t3.u.store = [0x41] ∧ t4.u.store = [0x41, 0x61]
+    ∧ t4.func = .upper := by decide +kernel
 
 end utf8
 
